@@ -6,6 +6,7 @@
  * file, you can obtain one at https://mozilla.org/MPL/2.0/.
  */
 
+#include <algorithm>
 #include <sstream>
 #include <bitset>
 #include <type_traits>
@@ -1506,7 +1507,8 @@ void CDNS::IndexListItem::read(CdnsDecoder& dec)
     reset();
     bool indef = false;
     uint64_t length = dec.read_array_start(indef);
-    list.reserve(length);
+    // The length comes from the input, reserve no more than what the decoder's buffer can hold
+    list.reserve(std::min<uint64_t>(length, static_cast<uint64_t>(CdnsDecoder::BUFFER_SIZE)));
 
     while (length > 0 || indef) {
         if (indef && dec.peek_type() == CborType::BREAK) {
